@@ -15,7 +15,7 @@ CHECKS = {
         ref="DESIGN.md section 3 / C01",
     ),
     "C02": dict(
-        text="Generated-input search with an independent reference: legal programs rendered under drawn layouts must parse to the independently rendered S-expression; token-level near misses are decided by an independent Earley recognizer (accept/reject, first offending token) and an independent recursive-descent tree builder. Exact at token level; below token level see C16.",
+        text="Generated-input search with an independent reference: legal programs rendered under drawn layouts must parse to the independently rendered S-expression; token-level near misses are decided by an independent Earley recognizer (accept/reject, first offending token) and an independent recursive-descent tree builder. Every valid program is also handed, under the drawn layout, to parse_jaqal_string and the circuit's meaning compared with the reference.  Exact at token level; below token level see C16.",
         note=TRUST + "vlib/refgrammar.py (grammar transcribed from the property and the Jaqal spec; Earley vs recursive descent cross-checked by the self-test); the two rule-level rejections (register size <= 0, import..as) only need JaqalParseError.",
         tech="property-based testing: differential against an independent Earley recognizer + metamorphic layout invariance",
         ref="DESIGN.md section 3 / C02",
@@ -39,7 +39,7 @@ CHECKS = {
         ref="DESIGN.md section 3 / C07",
     ),
     "C10": dict(
-        text="Generated-input search over pass HISTORIES: a drawn sequence (1-8 steps, repetitions) of expand_subcircuits / fill_in_let(ov) / expand_macros / fill_in_map is applied to the parsed circuit; after every step the independently extracted meaning must equal the reference meaning (so all orders agree), re-applying the pass must give an == circuit with identical text, generate->parse must succeed with the same meaning, usepulses must survive; every parser flag combination must equal the explicit composition.",
+        text="Generated-input search over pass HISTORIES: a drawn sequence (1-8 steps, repetitions) of expand_subcircuits / fill_in_let(ov) / expand_macros / fill_in_map is applied to the parsed circuit; after every step the independently extracted meaning must equal the reference meaning (so all orders agree), re-applying the pass must give an == circuit with identical text, generate->parse must succeed with the same meaning, usepulses must survive (alias fill-in is also tried before macro expansion: it may refuse, but an answer must be right); every parser flag combination must equal the explicit composition.",
         note=TRUST + "'applicable' for fill_in_map follows its docstring/use in parse_jaqal_string (after let substitution when overrides are given, after macro expansion when macros exist): otherwise the step is skipped; histories are drawn as lists (equivalent to a rule-based state machine whose rules are the four passes; replayable as JSON).",
         tech="property-based testing over operation sequences (model-based: reference meaning as the state invariant) + idempotence/round-trip metamorphic relations",
         ref="DESIGN.md section 3 / C10",
@@ -69,37 +69,37 @@ CHECKS = {
         ref="DESIGN.md section 3 / C12",
     ),
     "C06": dict(
-        text="Generated-input search + bounded exhaustive enumeration: for alias chains of depth 1-5 (strided, let-valued and defaulted bounds) every valid reference is resolved by the reference arithmetic and compared with resolve_qubit, fill_in_map (after macro expansion and let substitution, meaning unchanged), get_used_qubit_indices, the pyGSTi label and the emulator (probability 1 on 1<<idx); all two-level slice chains over registers up to 4 (quick) / 7 (thorough) qubits are enumerated completely for the three static consumers.",
+        text="Generated-input search + bounded exhaustive enumeration: for alias chains of depth 1-5 (strided, let-valued and defaulted bounds) every valid reference is resolved by the reference arithmetic and compared with resolve_qubit, fill_in_map (after macro expansion and let substitution, meaning unchanged), get_used_qubit_indices, the pyGSTi label and the emulator (probability 1 on 1<<idx); pyGSTi labels (name, qubits, classical arguments) of every gate the emulator serialises for executable programs are compared with the reference's execution; all two-level slice chains over registers up to 4 (quick) / 7 (thorough) qubits are enumerated completely for the three static consumers.",
         note=TRUST + "emulator consumer sampled (8 references per case, n <= 8); pyGSTi consumer only if its module imports.",
         tech="property-based testing: reference-model oracle with N-way differential between consumers; exhaustive enumeration of a bounded sub-domain",
         ref="DESIGN.md section 3 / C06",
     ),
     "C09": dict(
-        text="Generated-input search: structurally, expand_subcircuits (default / caller-named / caller-object definitions, anonymous or native gates) must leave no subcircuit block (macro bodies included), match the reference meaning of the spelled-out program, use the right definition objects and keep header data; behaviourally, a program and its spelled-out twin (prepare_all; B; measure_all) must run and parse hardware outputs identically (counts, probabilities 1e-12, attribution, frequencies).",
+        text="Generated-input search: structurally, expand_subcircuits (default / caller-named / caller-object definitions, anonymous or native gates) must leave no subcircuit block (macro bodies included), match the reference meaning of the spelled-out program, use the right definition objects and keep header data; behaviourally, a program and its spelled-out twin (prepare_all; B; measure_all) must run and parse hardware outputs identically (counts, probabilities 1e-12, attribution, frequencies), also when explicit prepare/measure gates are injected into subcircuit bodies (verdicts must agree); a second expansion of the same object with other bounding gates must not remember the first.",
         note=TRUST + "behavioural part restricted to programs the reference accepts; sampled values are not compared, only attribution and distributions.",
         tech="property-based testing: reference-model oracle + differential between two spellings of the same program",
         ref="DESIGN.md section 3 / C09",
     ),
     "C13": dict(
-        text="Generated-input search: get_used_qubit_indices of circuits and of busy-free statements must equal the reference used set exactly (aliases of aliases, strided slices, let indices, macro parameters, loops, idle gates); programs with an overlap injected into a parallel block through a random name of the shared qubit (or an idle gate, which must not count) must be rejected by the emulator exactly when the reference says the branches intersect, and accepted programs must be invariant under branch permutation.",
+        text="Generated-input search: get_used_qubit_indices of circuits and of busy-free statements must equal the reference used set exactly (aliases of aliases, strided slices, let indices, macro parameters forwarded through chains of macros, whole-register arguments, loops, idle gates); programs with an overlap injected into a parallel block through a random name of the shared qubit (or an idle gate, which must not count) must be rejected by the emulator exactly when the reference says the branches intersect, and accepted programs must be invariant under branch permutation.",
         note=TRUST + "an unexpanded subcircuit block contributes the gates written in it (its implicit prepare/measure exist only after expand_subcircuits).",
         tech="property-based testing: reference-model oracle (exact set, both inclusions) + fault injection + metamorphic permutation",
         ref="DESIGN.md section 3 / C13",
     ),
     "C15": dict(
-        text="Generated-input search + bounded exhaustive enumeration: every view of every subcircuit result (simulated/relative/probability, by_int/by_str) and every Readout is checked against the little-endian convention, normalisation and counts, for emulator runs and for output lists given as ints and as strings; ALL outcomes for n <= 6 (quick) / 9 (thorough) qubits are fed through the output parser and (n <= 6) through emulated basis-state preparation.",
+        text="Generated-input search + bounded exhaustive enumeration: every view of every subcircuit result (simulated/relative/probability, by_int/by_str) and every Readout is checked against the little-endian convention, normalisation and counts, for emulator runs and for output lists given as ints and as strings; ALL outcomes for n <= 6 (quick) / 9 (thorough) qubits are fed through the output parser and (n <= 6) through emulated basis-state preparation; runs of 127..70003 visits with one dominant outcome check that no counter wraps.",
         note=TRUST + "the convention is the one documented in core/result.py.",
         tech="property-based testing: invariant/validity predicates over result views + exhaustive outcome enumeration",
         ref="DESIGN.md section 3 / C15",
     ),
     "C11": dict(
-        text="Generated-input search over call HISTORIES on one shared circuit object: after every one of 1-7 drawn library calls (five transformations, used-qubit analysis, text generation, emulation, output parsing) a deep structural fingerprint of the shared input (everything reachable, element identities, repr) must be unchanged and the call's outcome must equal the outcome on a freshly parsed copy.",
+        text="Generated-input search over call HISTORIES on one shared circuit object: after every one of 1-7 drawn library calls (five transformations, used-qubit analysis, text generation, emulation, output parsing) a deep structural fingerprint of the shared input (everything reachable, element identities, repr) must be unchanged and the call's outcome must equal the outcome on a freshly parsed copy; every call is also applied to the result of the latest transformation (chained inputs), which must stay unchanged too.",
         note=TRUST + "the fingerprint walks __dict__/list/dict/tuple/slice/ndarray; histories are drawn as lists (a rule-based state machine whose rules are the nine calls, replayable as JSON).",
         tech="property-based testing over operation sequences: history invariant (deep snapshot) + differential against a fresh copy",
         ref="DESIGN.md section 3 / C11",
     ),
     "C14": dict(
-        text="Generated-input search with single-fault injection: every boundary/out-of-range index (literal, let, override, macro argument), out-of-source alias slice, non-register indexing/aliasing, bad register size, duplicate definition, unknown gate / wrong arity / wrong kind (also after macro substitution) is injected into a valid program and the documented pipeline is driven stage by stage: rejection with JaqalError no later than the stage where the value becomes known, never a result, never another exception; the fault-free twin must pass and mean what the reference says; gate-definition precedence (injected > later import > earlier import) is enumerated exhaustively with on-disk pulse modules.",
+        text="Generated-input search with single-fault injection: every boundary/out-of-range index (literal, let, override, macro argument), out-of-source alias slice, non-register indexing/aliasing, bad register size, duplicate definition, unknown gate / wrong arity / wrong kind (also after macro substitution) is injected into a valid program and the documented pipeline is driven stage by stage: rejection with JaqalError no later than the stage where the value becomes known, never a result, never another exception; the fault-free twin must pass and mean what the reference says; gate-definition precedence (injected > later import > earlier import, incl. repeated imports and a gate with the same signature but another unitary in both modules) is enumerated exhaustively with on-disk pulse modules; definition faults also by removal (a called macro deleted / its parameter list changed).",
         note=TRUST + "vlib/pulses/moda.py, modb.py (on-disk pulse modules); the stage at which a value 'becomes known' is computed by the reference from what the failing check depends on (literal / let / macro argument).",
         tech="property-based testing: fault injection with a reference validity predicate, staged-pipeline oracle, fault-free twins",
         ref="DESIGN.md section 3 / C14",
@@ -111,7 +111,7 @@ CHECKS = {
         ref="DESIGN.md section 3 / C17",
     ),
     "C18": dict(
-        text="Bounded exhaustive enumeration + generated-input search: every signature of length <= 2 (quick) / <= 3 (thorough) over the five parameter kinds x every tuple of 15 value classes, plus wrong arities, is called positionally and by keyword and compared with a reference `fits` predicate; idle twins are checked structurally and by inserting idle gates into executable programs (state unchanged); stretched sets are checked for signature and exact equality of the ideal unitary with the parent's.",
+        text="Bounded exhaustive enumeration + generated-input search: every signature of length <= 2 (quick) / <= 3 (thorough) over the five parameter kinds x every tuple of 17 value classes (incl. None and arbitrary objects), plus wrong arities, is called positionally and by keyword and compared with a reference `fits` predicate; idle twins are checked structurally and by inserting idle gates into executable programs (state unchanged); stretched sets (parents optionally used before derivation; active gates named like derived ones) are checked for signature, call validation of the stretch factor and exact equality of the ideal unitary with the parent's.",
         note=TRUST + "non-finite floats offered to FLOAT/NONE parameters are not judged.",
         tech="exhaustive enumeration of a finite call table + property-based metamorphic checks (idle insertion, stretch factor invariance)",
         ref="DESIGN.md section 3 / C18",
@@ -123,7 +123,7 @@ CHECKS = {
         ref="DESIGN.md section 3 / C19",
     ),
     "C16": dict(
-        text="Fuzzing with an explicit oracle: junk strings, token soups, character- and token-granular prefixes and character-level mutations of valid programs are handed to four entry points (parse, header parse, parse with relative pulse import, run); only a result, JaqalError, or ImportError-for-a-missing-module may come out, within a deterministic step budget, parse errors must carry an in-text position, ill-formed token texts (independent Earley recognizer) and texts with illegal characters must raise JaqalParseError; histories of 2-6 calls in one process must reproduce, text by text, the outcome of a pristine freshly spawned interpreter.",
+        text="Fuzzing with an explicit oracle: junk strings, token soups, character- and token-granular prefixes and character-level mutations of valid programs are handed to nine entry points (parse, header parse, parse with an injected gate-set object shared by all calls, parse with relative pulse import under two import directories, run, parse_jaqal_file / run_jaqal_file next to copies of the pulse modules; pulse modules in four on-disk layouts); only a result, JaqalError, or ImportError-for-a-missing-module may come out, within a deterministic step budget, parse errors must carry an in-text position, ill-formed token texts (independent Earley recognizer) and texts with illegal characters must raise JaqalParseError; histories of 2-8 calls in one process must reproduce, text by text, the outcome of a pristine freshly spawned interpreter.",
         note=TRUST + "vlib/pristine.py (fresh `python -c` per distinct text, asserts importlib.util not yet imported), vlib/refgrammar.py; raw character strings get the weak oracle only; run-entry texts containing large numbers are excluded from the termination budget (honest cost unbounded).",
         tech="grammar-aware fuzzing (PRNG-expanded seeds under Hypothesis) with exception-contract oracle, step-budget termination oracle and differential against a pristine interpreter for call histories",
         ref="DESIGN.md section 3 / C16",
